@@ -9,8 +9,8 @@ import (
 
 	"github.com/hyperjumptech/grule-rule-engine/ast"
 	"github.com/hyperjumptech/grule-rule-engine/model"
-	verif "github.com/hyperjumptech/grule-rule-engine/zzverif"
 	"github.com/hyperjumptech/grule-rule-engine/zzkb"
+	verif "github.com/hyperjumptech/grule-rule-engine/zzverif"
 )
 
 type c04Case struct {
@@ -22,7 +22,9 @@ type c04Case struct {
 var c04Cases = []c04Case{
 	{"A00", func(p *factSnap) bool { return verif.And(p.f.J >= -128, p.f.J <= 127) }, func(p *factSnap, f *Fact, w *tbWorld) bool { return int64(f.I8) == p.f.J }},
 	{"A01", func(p *factSnap) bool { return verif.And(p.f.X > -1, p.f.X < 65536) }, func(p *factSnap, f *Fact, w *tbWorld) bool { return f.U16 == uint16(p.f.X) }},
-	{"A02", nil, func(p *factSnap, f *Fact, w *tbWorld) bool { return verif.SameFloat64(float64(f.F32), float64(float32(float64(p.f.I)))) }},
+	{"A02", nil, func(p *factSnap, f *Fact, w *tbWorld) bool {
+		return verif.SameFloat64(float64(f.F32), float64(float32(float64(p.f.I))))
+	}},
 	{"A03", nil, func(p *factSnap, f *Fact, w *tbWorld) bool { return verif.SameFloat64(f.X, float64(p.f.U8)) }},
 	{"A04", nil, func(p *factSnap, f *Fact, w *tbWorld) bool { return f.Arr[1] == int64(p.f.X) }},
 	{"A05", nil, func(p *factSnap, f *Fact, w *tbWorld) bool { return verif.SameFloat64(f.FA[0], float64(p.f.I)) }},
